@@ -409,6 +409,21 @@ def _sympy(e):
             if _is0(base.im):
                 d = base ** int(-ex)
                 return ZC(R1 / d.re, R0)
+        if ex.is_Float and float(ex) * 2 == int(float(ex) * 2):
+            ex = sympy.Rational(int(float(ex) * 2), 2)
+        if ex.is_Rational and ex.q == 2 and b.is_real and b.is_nonnegative:
+            # square root of a non-negative real term (nested radicals,
+            # sqrt(x**2 + 1), ...): one shared unknown t per radicand with
+            # t*t == radicand and t >= 0
+            rads = c.__dict__.setdefault('rads', {})
+            k = sympy.srepr(b)
+            if k not in rads:
+                base = _sympy(b)
+                t = z3.Real('rad%d' % (len(rads) + 1))
+                c.cons += [t * t == base.re, t >= 0]
+                rads[k] = t
+            r = ZC(rads[k], R0) ** abs(int(ex.p))
+            return r if ex.p > 0 else ZC(R1 / r.re, R0)
     if isinstance(e, sympy.conjugate):
         return _sympy(e.args[0]).conjugate()
     if isinstance(e, sympy.exp):
@@ -576,12 +591,20 @@ def prove_equal(E, A, B, key, prop=False, timeout_ms=60000, info=None):
                      nz(za) != nz(zb))
     else:
         diffs = []
+        eps = z3.RealVal('1/1000000000')
         for x, y in zip(za, zb):
-            if x.re is not y.re:
-                diffs.append(x.re != y.re)
-            if x.im is not y.im:
-                diffs.append(x.im != y.im)
+            for p_, q_ in ((x.re, y.re), (x.im, y.im)):
+                if p_ is q_:
+                    continue
+                if c.tolerance_mode:
+                    # an unrecognised float constant occurred: compare up
+                    # to 1e-9 (marked "tolerance mode" in the evidence)
+                    diffs.append(z3.Or(p_ - q_ > eps, q_ - p_ > eps))
+                else:
+                    diffs.append(p_ != q_)
         goal = z3.Or(*diffs) if diffs else z3.BoolVal(False)
+        if c.tolerance_mode:
+            E.cover("tolerance-mode")
     links, _ = c.link_constraints()
     E.stats.checks += 1
     goal = z3.simplify(goal)
